@@ -426,3 +426,10 @@ def run(ctx):
     # opened at that moment later watches the rest of the batch appear: get(last) goes from None to Some, len() grows)
     from . import C06
     C06.version_change_rules(ctx, "R-C05.7")
+
+    # ---- borrowed obligations (mechanisms owned by other properties that this property's verdict also rests on)
+    # a view's instant covers nothing that is still to be written: publish uses the drawn seqno, views take the visible counter
+    ctx.borrow("C06", ["R-C06.1", "R-C06.2", "R-C06.3", "R-C06.4"], "R-C05.8")
+    # the meta keyspace publishes exactly what it drew
+    ctx.borrow("C11", ["R-C11.4"], "R-C05.9")
+
